@@ -137,9 +137,40 @@ func runC02(c *core.Ctx) {
 		if err1 == nil && err2 == nil {
 			kTx, _ := constInt64Val(maxTx)
 			kSig, _ := constInt64Val(maxSig)
-			eng.Dominates(c, "C02.refusals", fn, relGuard("lenAll <= MAX_TX_SIZE", func(v ssa.Value) bool {
+			// lenAll = (position after the LAST read, signatures included) − (start position)
+			sigReads := ir.Calls(fn, func(ci ssa.CallInstruction) bool {
+				o := ir.CalleeObj(ci)
+				return o != nil && (o.Name() == "NextVarUint" || (o.Name() == "Deserialize" && recvNamedCI(ci, "Sig")) || o.Name() == "DeserializationUnsigned")
+			})
+			eng.Dominates(c, "C02.refusals", fn, relGuard("lenAll <= MAX_TX_SIZE (whole encoding, signatures included)", func(v ssa.Value) bool {
 				b, ok := ir.Strip(v).(*ssa.BinOp)
-				return ok && b.Op == token.SUB
+				if !ok || b.Op != token.SUB {
+					return false
+				}
+				pend, _ := ir.CallOf(b.X)
+				pstart, _ := ir.CallOf(b.Y)
+				if pend == nil || pstart == nil || ir.CalleeObj(pend) == nil || ir.CalleeObj(pend).Name() != "Pos" || ir.CalleeObj(pstart) == nil || ir.CalleeObj(pstart).Name() != "Pos" {
+					return false
+				}
+				// no field of the transaction is read after the end position was taken …
+				r := ir.NewReach(fn).Run(pend)
+				for _, sr := range sigReads {
+					if r.Instr(sr) {
+						return false
+					}
+				}
+				// … and every read follows the start position
+				r0 := ir.NewReach(fn).Run(nil)
+				r0.Barrier[pstart] = true
+				r0 = ir.NewReach(fn)
+				r0.Barrier[pstart] = true
+				r0.Run(nil)
+				for _, sr := range sigReads {
+					if r0.Instr(sr) {
+						return false
+					}
+				}
+				return true
 			}, isConstInt(kTx), token.LEQ), succ, "nil return", nil)
 			eng.Dominates(c, "C02.refusals", fn, relGuard("signature count <= TX_MAX_SIG_SIZE", func(v ssa.Value) bool {
 				r, _ := wireCount(v, 0)
